@@ -306,6 +306,25 @@ theorem foldl_addWaiting_inv (cfg : Cfg) (hcfg : cfg.replaceForgets = true) (a :
         obtain ⟨h2, g1, g2, g3, g4, g5⟩ := ih { acc' with all := forget acc'.all [t] } (inv_setAll _ (e ▸ h1) _) hr
         exact ⟨h2, g1.trans (e ▸ f1.pending), g2.trans (e ▸ f1.pl), g3.trans (e ▸ f1.wl), g4.trans (e ▸ f1.nonces), g5.trans (e ▸ f1.ext)⟩
 
+theorem consecPrefix_sub : ∀ (q : Queue) (n : Nat), (consecPrefix q n).1.Sublist q ∧ (consecPrefix q n).2.Sublist q := by
+  intro q
+  induction q with
+  | nil => intro n; simp [consecPrefix]
+  | cons t r ih =>
+    intro n
+    unfold consecPrefix
+    split
+    · exact ⟨List.Sublist.cons₂ t (ih (n + 1)).1, List.Sublist.cons t (ih (n + 1)).2⟩
+    · exact ⟨List.nil_sublist _, List.Sublist.refl _⟩
+
+theorem gapSplit_sub (cfg : Cfg) (q : Queue) (n : Nat) : (gapSplit cfg q n).1.Sublist q ∧ (gapSplit cfg q n).2.Sublist q := by
+  unfold gapSplit
+  split
+  · exact consecPrefix_sub q n
+  · split
+    · exact ⟨List.Sublist.refl _, List.nil_sublist _⟩
+    · exact ⟨List.nil_sublist _, List.Sublist.refl _⟩
+
 theorem demoteOne_inv (cfg : Cfg) (hcfg : cfg.replaceForgets = true) (p : Pool) (a : Nat) (h : Inv p) (ha : a ∈ accounts) :
     Inv (demoteOne cfg p a) ∧ Frame2 p (demoteOne cfg p a) := by
   unfold demoteOne
@@ -319,17 +338,24 @@ theorem demoteOne_inv (cfg : Cfg) (hcfg : cfg.replaceForgets = true) (p : Pool) 
   have inv1 := inv_setPending p h a ha (qForward (p.pending a) (nonceOf p a)).1
     (forget p.all (qForward (p.pending a) (nonceOf p a)).2)
     (List.Pairwise.sublist hq1sub (h.pS a)) (fun x hx => h.pO a x (hq1sub.subset hx)) hc1
+  obtain ⟨hks, hrs⟩ := gapSplit_sub cfg (qForward (p.pending a) (nonceOf p a)).1 (nonceOf p a)
+  generalize gapSplit cfg (qForward (p.pending a) (nonceOf p a)).1 (nonceOf p a) = kr at hks hrs ⊢
+  obtain ⟨keep, rest⟩ := kr
+  dsimp only at hks hrs ⊢
   split
   · exact ⟨inv1, rfl, rfl, rfl, rfl⟩
-  · -- everything back to the waiting queue
-    have hc2 : mCount (mSet (mSet p.pending a (qForward (p.pending a) (nonceOf p a)).1) a []) ≤ p.pendingLimit := by
-      have := mCount_mSet (mSet p.pending a (qForward (p.pending a) (nonceOf p a)).1) a [] ha
-      simp only [List.length_nil] at this
+  · -- what lies behind the gap goes back to the waiting queue
+    have hksub : keep.Sublist (p.pending a) := hks.trans hq1sub
+    have hc2 : mCount (mSet (mSet p.pending a (qForward (p.pending a) (nonceOf p a)).1) a keep) ≤ p.pendingLimit := by
+      have := mCount_mSet (mSet p.pending a (qForward (p.pending a) (nonceOf p a)).1) a keep ha
+      have h0 : (mSet p.pending a (qForward (p.pending a) (nonceOf p a)).1 a).length = (qForward (p.pending a) (nonceOf p a)).1.length := by
+        simp [mSet]
+      have := hks.length_le
       omega
-    have inv2 := inv_setPending _ inv1 a ha [] (forget p.all (qForward (p.pending a) (nonceOf p a)).2)
-      (by simp [Sorted]) (by simp) hc2
-    obtain ⟨h3, _, g2, g3, g4, g5⟩ := foldl_addWaiting_inv cfg hcfg a ha (qForward (p.pending a) (nonceOf p a)).1 _ inv2
-      (fun t ht => h.pO a t (hq1sub.subset ht))
+    have inv2 := inv_setPending _ inv1 a ha keep (forget p.all (qForward (p.pending a) (nonceOf p a)).2)
+      (List.Pairwise.sublist hksub (h.pS a)) (fun x hx => h.pO a x (hksub.subset hx)) hc2
+    obtain ⟨h3, _, g2, g3, g4, g5⟩ := foldl_addWaiting_inv cfg hcfg a ha rest _ inv2
+      (fun t ht => h.pO a t (hq1sub.subset (hrs.subset ht)))
     exact ⟨h3, g2, g3, g4, g5⟩
 
 /-! ### commit -/
